@@ -126,7 +126,7 @@ def startsAmbiguous (l : List Tok) : Bool :=
 /-- one statement of a statement list; `first`: it is the first one (no separator in front).  In compact
 mode a later statement starting with `-`, `+`, `^` is printed in parentheses. -/
 def stmtToks (c ap : Bool) (first : Bool) (n : Node) : List Tok :=
-  if c && !first && startsAmbiguous (exprToks c ap prioLOWEST false n) then
+  if c && !first && startsAmbiguous (exprToks c ap prioLOWEST (!first) n) then
     lparen true :: exprToks c ap prioLOWEST false n ++ [rparen]
   else exprToks c ap prioLOWEST (!first) n
 
@@ -142,7 +142,7 @@ def progToks (c ap : Bool) (prog : List (Option Node)) : List Tok := progToksAux
 "statement-starts-with-prefix-operator": on its own line such a statement continues the previous one) -/
 def noAmbiguousStart (ap : Bool) : Bool → List (Option Node) → Bool
   | _, [] => true
-  | first, some n :: rest => (first || !startsAmbiguous (exprToks false ap prioLOWEST false n)) && noAmbiguousStart ap false rest
+  | first, some n :: rest => (first || !startsAmbiguous (stmtToks false ap first n)) && noAmbiguousStart ap false rest
   | _, none :: _ => false
 
 /-- the fragment of programs, per print mode -/
